@@ -112,3 +112,86 @@ def structtag_visible_only(ctx, tag):
             how = "every member stored is tested to be outside cls.private"
         out.append((ok, how, r.ast))
     return out
+
+
+def enum_method_results(ctx, tbl, fn, inputs):
+    """Fold a small classmethod of an EnumMap table (if/return over cls.get / cls[...] look-ups) for each input value.
+    The table is modelled the way MapMeta builds it: names (case-folded) -> members, value key -> name.
+    Returns {input: result | ("raises", name) | UNKNOWN}."""
+    from ..consteval import UNKNOWN, ClassRef, FuncRef
+
+    members = {k: v for k, v in ctx.folder.enum_members(tbl).items() if not isinstance(v, FuncRef)}
+    by_name = {k.lower(): v for k, v in members.items()}
+    vk = ctx.folder.class_attr(tbl, "_value_key_")
+    rev = {}
+    for name, v in members.items():
+        key = v
+        if isinstance(vk, FuncRef) and isinstance(v, ClassRef):
+            rets = [r for r in walk(vk.node) if isinstance(r, ast.Return)]
+            p = vk.node.args.args[0].arg if isinstance(vk.node, ast.FunctionDef) and vk.node.args.args else None
+            if len(rets) == 1 and p and (attr_path(rets[0].value) or "").startswith(p + "."):
+                key = ctx.folder.class_attr(v.ci, attr_path(rets[0].value)[len(p) + 1:])
+            else:
+                key = UNKNOWN
+        if key is not UNKNOWN and not isinstance(key, (ClassRef, FuncRef)):
+            try:
+                rev.setdefault(key, name)
+            except TypeError:
+                pass
+    param = fn.args.args[1].arg if len(fn.args.args) > 1 else None
+
+    def lookup(k, default=None):
+        if isinstance(k, str):
+            return by_name.get(k.lower(), default)
+        try:
+            return rev.get(k, default)
+        except TypeError:
+            return default
+
+    def ev(e, env):
+        if isinstance(e, ast.Call) and attr_path(e.func) in ("cls.get",) and 1 <= len(e.args) <= 2:
+            k = ev(e.args[0], env)
+            d = ev(e.args[1], env) if len(e.args) == 2 else None
+            return UNKNOWN if k is UNKNOWN else lookup(k, d)
+        if isinstance(e, ast.Subscript) and attr_path(e.value) == "cls":
+            k = ev(e.slice, env)
+            if k is UNKNOWN:
+                return UNKNOWN
+            r = lookup(k, UNKNOWN)
+            return ("raises", "KeyError") if r is UNKNOWN else r
+        if isinstance(e, ast.IfExp):
+            t = ev(e.test, env)
+            return UNKNOWN if t is UNKNOWN else ev(e.body if t else e.orelse, env)
+        return ctx.folder.eval(e, tbl.module, env=env)
+
+    def run(stmts, env):
+        for st in stmts:
+            if isinstance(st, ast.Expr) and isinstance(st.value, ast.Constant):
+                continue
+            if isinstance(st, ast.Return):
+                return ev(st.value, env) if st.value is not None else None
+            if isinstance(st, ast.If):
+                t = ev(st.test, env)
+                if t is UNKNOWN or isinstance(t, tuple):
+                    return UNKNOWN
+                r = run(st.body if t else st.orelse, env)
+                if r is not _FALLTHROUGH:
+                    return r
+                continue
+            if isinstance(st, ast.Assign) and len(st.targets) == 1 and isinstance(st.targets[0], ast.Name):
+                env = dict(env)
+                env[st.targets[0].id] = ev(st.value, env)
+                continue
+            if isinstance(st, ast.Raise):
+                return ("raises", call_name(st.exc) if isinstance(st.exc, ast.Call) else attr_path(st.exc))
+            return UNKNOWN
+        return _FALLTHROUGH
+
+    out = {}
+    for x in inputs:
+        r = run(list(fn.body), {param: x})
+        out[x] = None if r is _FALLTHROUGH else r
+    return out, members, rev
+
+
+_FALLTHROUGH = object()
